@@ -4,7 +4,7 @@
    (R, W or NoLock) and a body: a list of micro-steps, each either a read of the
    store into thread-local scratch or a write of the store.  The machine
    interleaves call / acquire / micro-step / return events of any number of
-   threads in any order the lock admits.  A ghost store evolves by the
+   threads in any order the lock allows.  A ghost store evolves by the
    sequential specification (= the whole body run atomically) at each acquire
    and a ghost log records (thread, op, arg, specified result) at that instant.
 
@@ -104,7 +104,7 @@ Inductive step : gstate -> tid -> label -> gstate -> Prop :=
 
 Definition trace := list (tid * label).
 
-(* a run = any finite schedule the machine admits *)
+(* a run = any finite schedule the machine allows *)
 Inductive run : gstate -> trace -> gstate -> Prop :=
 | run_nil g : run g [] g
 | run_cons g t lb g1 tr g2 : step g t lb g1 -> run g1 tr g2 -> run g ((t, lb) :: tr) g2.
